@@ -448,9 +448,17 @@ Proof.
         rewrite ?Hp, ?orb_true_r. simpl. exact Hk.
 Qed.
 
+Definition read_hs (h : hs) (x : out) : hs :=
+  match x with
+  | ORead d _ => if h_closed h then h
+                 else mkHs (skipn (length d) (h_rest h)) (h_wrapped h) false (h_raw h)
+  | _ => h
+  end.
+
 Lemma step_read c term chk s h k x s' :
   R c term chk s h -> do_read k s = (x, s') ->
-  exists h', R c term chk s' h' /\
+  let h' := read_hs h x in
+  R c term chk s' h' /\
     forall closes ops outs, hist_ok chk c term closes h' ops outs = true ->
                             hist_ok chk c term closes h (OpRead k :: ops) (x :: outs) = true.
 Proof.
@@ -462,7 +470,7 @@ Proof.
     destruct cl.
     + destruct R9 as [Hd Hex].
       destruct (stack_read_dead _ _ _ _ _ _ _ Hd E) as (-> & I2 & I3 & I4 & ->).
-      exists (mkHs rest w true raw). split.
+      unfold read_hs; cbn [h_closed]. split.
       { unfold R; cbn [s_body s_stream s_ls s_r s_closes h_rest h_wrapped h_closed h_raw].
         rewrite Hnb. repeat (split; try assumption).
         - intros Hw. specialize (R3 Hw). rewrite R3 in I4. destruct ls'; [reflexivity|discriminate].
@@ -475,7 +483,9 @@ Proof.
       apply Nat.eqb_neq in Hk0. specialize (I2 Hk0). destruct oe; [reflexivity|contradiction].
     + destruct R9 as (Hi & Hrem & Ht).
       destruct (stack_read_spec _ _ _ _ _ _ _ Hi E) as (I1 & I2 & I3 & I4 & I5 & I6 & I7).
-      exists (mkHs (rem ls' r') w false raw). split.
+      unfold read_hs; cbn [h_closed h_rest h_wrapped h_raw].
+      assert (Hsk : skipn (length d) rest = rem ls' r') by (rewrite <- Hrem, I2; apply skipn_app_exact).
+      rewrite Hsk. split.
       { unfold R; cbn [s_body s_stream s_ls s_r s_closes h_rest h_wrapped h_closed h_raw].
         unfold no_body in *. cbn [h_wrapped] in *. rewrite Hnb.
         repeat (split; try assumption).
@@ -492,7 +502,7 @@ Proof.
       subst e. rewrite <- Ht. apply err_eqb_refl.
   - inversion H; subst; clear H.
     assert (Hnb : no_body c (mkHs rest w cl raw) = true) by (destruct (no_body c _); [reflexivity|discriminate]).
-    exists (mkHs rest w cl raw). split.
+    unfold read_hs. split.
     { unfold R; cbn [h_rest h_wrapped h_closed h_raw]. rewrite Hnb. repeat (split; try assumption). }
     intros closes ops outs Hk. cbn [hist_ok]. rewrite Hnb. exact Hk.
 Qed.
@@ -577,7 +587,7 @@ Lemma step_ok c term chk o s h x s' :
 Proof.
   intros HR H. destruct o as [|k|]; simpl in H.
   - eexists. exact (step_has _ _ _ _ _ _ _ HR H).
-  - exact (step_read _ _ _ _ _ _ _ _ HR H).
+  - eexists. exact (step_read _ _ _ _ _ _ _ _ HR H).
   - exact (step_close _ _ _ _ _ _ _ HR H).
 Qed.
 
@@ -833,3 +843,175 @@ Example ex_history :
       ORead [] (Some (EScript 7)); OClose None; ORead [] (Some EUnexpectedEOF); OClose (Some EClosed)],
      mkSt true true [mkL [] None true; mkL [] None true] (Dead (EScript 7)) 1).
 Proof. vm_compute. reflexivity. Qed.
+
+(* ---------- reading on yields everything: the drain theorem ---------- *)
+Definition empties_r (s : rstate) : nat := match s with Live l => empties l | Dead _ => 0 end.
+
+Lemma sread_measure k s c oe s' :
+  sread k s = ((c, oe), s') ->
+  empties_r s' <= empties_r s /\ (0 < k -> c = [] -> oe = None -> empties_r s = S (empties_r s')).
+Proof.
+  destruct s as [l|t]; simpl.
+  - destruct l as [|[ch ot] r]; simpl.
+    + intros H; inversion H; subst; simpl. split; [lia|discriminate].
+    + destruct (length ch <=? k) eqn:Hk; intros H; inversion H; subst; clear H.
+      * destruct c, oe as [t|]; simpl; split; try lia; try discriminate; reflexivity.
+      * apply Nat.leb_gt in Hk. destruct ch as [|x ch]; [simpl in Hk; lia|].
+        assert (Hs : skipn k (x :: ch) <> []).
+        { intros E. apply (f_equal (@length _)) in E. rewrite skipn_length in E. cbn [length] in E, Hk. lia. }
+        split.
+        -- cbn [empties_r empties]. destruct (skipn k (x :: ch)) as [|y q] eqn:Es; [contradiction|]. destruct ot; simpl; lia.
+        -- intros Hk0 Hc. destruct k; [lia|]. simpl in Hc. discriminate.
+  - intros H; inversion H; subst; simpl. split; [lia|discriminate].
+Qed.
+
+Lemma stack_read_measure ls : forall k r c oe ls' r',
+  inv ls r -> stack_read k ls r = ((c, oe), ls', r') ->
+  empties_r r' <= empties_r r /\ (0 < k -> c = [] -> oe = None -> empties_r r = S (empties_r r')).
+Proof.
+  induction ls as [|l lo IH]; intros k r c oe ls' r' Hinv H.
+  - simpl in H. destruct (sread k r) as [[c0 oe0] r0] eqn:E. inversion H; subst; clear H.
+    eapply sread_measure; eauto.
+  - destruct Hinv as (Hop & Herr & Hlo). simpl in H. rewrite Hop in H.
+    destruct (Nat.eqb k 0) eqn:Hk0.
+    + apply Nat.eqb_eq in Hk0. destruct (lbuf l); inversion H; subst; split; lia.
+    + apply Nat.eqb_neq in Hk0.
+      destruct (lbuf l) as [|b bs] eqn:Eb.
+      * destruct (lerr l) as [e0|] eqn:Ee; [inversion H; subst; split; [lia|discriminate]|].
+        destruct (bufsize <=? k) eqn:Hbig.
+        -- destruct (stack_read k lo r) as [[[c0 oe0] lo0] r0] eqn:E. inversion H; subst; clear H.
+           eapply IH; eauto.
+        -- destruct (stack_read bufsize lo r) as [[[c0 oe0] lo0] r0] eqn:E.
+           destruct (IH _ _ _ _ _ _ Hlo E) as [I1 I2].
+           destruct c0 as [|y c0]; inversion H; subst; clear H.
+           ++ split; [exact I1|]. intros _ _ Ho. apply I2; auto. apply bufsize_pos.
+           ++ split; [exact I1|]. intros Hk Hc. exfalso. eapply (firstn_nonempty k y c0); eauto.
+      * inversion H; subst; clear H. split; [lia|].
+        intros Hk Hc. exfalso. eapply (firstn_nonempty k b bs); eauto.
+Qed.
+
+Lemma R_body c term chk s h : R c term chk s h -> c_nil c = false -> s_body s = true.
+Proof. intros (R1 & _) Hn. rewrite R1. unfold no_body. now rewrite Hn. Qed.
+
+Lemma drain_ok c term chk k : 0 < k -> c_nil c = false -> forall fuel s h,
+  R c term chk s h -> h_closed h = false ->
+  length (h_rest h) + empties_r (s_r s) < fuel ->
+  drain fuel k s = (h_rest h, Some term).
+Proof.
+  intros Hk Hn. induction fuel as [|f IH]; intros s h HR Hc Hf; [lia|].
+  cbn [drain]. destruct (do_read k s) as [x s'] eqn:E.
+  pose proof (step_read _ _ _ _ _ _ _ _ HR E) as [HR' _].
+  pose proof (R_body _ _ _ _ _ HR Hn) as Hb.
+  destruct HR as (_ & _ & _ & _ & _ & _ & _ & _ & R9). rewrite Hc in R9. destruct R9 as (Hi & Hrem & Ht).
+  unfold do_read in E. rewrite Hb in E. cbn [negb] in E.
+  destruct (stack_read k (s_ls s) (s_r s)) as [[[d oe] ls'] r'] eqn:Es. inversion E; subst x s'; clear E.
+  destruct (stack_read_spec _ _ _ _ _ _ _ Hi Es) as (I1 & I2 & I3 & I4 & I5 & I6 & I7).
+  destruct (stack_read_measure _ _ _ _ _ _ _ Hi Es) as [M1 M2].
+  unfold read_hs in HR'. rewrite Hc in HR'.
+  assert (Hsk : skipn (length d) (h_rest h) = rem ls' r') by (rewrite <- Hrem, I2; apply skipn_app_exact).
+  rewrite Hsk in HR'.
+  destruct oe as [e|].
+  - destruct (I5 e eq_refl) as [-> H2]. rewrite <- Hrem, I2, H2, app_nil_r, <- Ht. reflexivity.
+  - rewrite (IH _ _ HR' eq_refl).
+    + cbn [h_rest]. now rewrite <- Hrem, I2.
+    + cbn [h_rest s_r]. rewrite <- Hrem, I2, app_length in Hf.
+      destruct d as [|y d]; simpl in Hf |- *; [|lia].
+      rewrite (M2 Hk eq_refl eq_refl) in Hf. lia.
+Qed.
+
+(* what a history without Close leaves owed *)
+Lemma run_open c term chk : c_nil c = false -> forall ops s h,
+  R c term chk s h -> h_closed h = false -> existsb is_close ops = false ->
+  exists h', R c term chk (snd (run c ops s)) h' /\ h_closed h' = false /\
+             h_rest h = read_bytes (reads_before_close (h_wrapped h) c ops (fst (run c ops s))) ++ h_rest h'.
+Proof.
+  intros Hn. induction ops as [|o ops IH]; intros s h HR Hc Hx.
+  - exists h. simpl. auto.
+  - simpl in Hx. apply orb_false_iff in Hx as [Ho Hx].
+    simpl. destruct (step c o s) as [x s1] eqn:E.
+    destruct o as [|k|]; [| |discriminate]; simpl in E.
+    + destruct (step_has _ _ _ _ _ _ _ HR E) as [HR1 Hs].
+      destruct (IH _ _ HR1 Hc Hx) as (h' & H1 & H2 & H3).
+      destruct (run c ops s1) as [xs s2] eqn:E2. simpl in *. exists h'. auto.
+    + destruct (step_read _ _ _ _ _ _ _ _ HR E) as [HR1 Hs].
+      pose proof (R_body _ _ _ _ _ HR Hn) as Hb.
+      assert (Hx' : exists d oe, x = ORead d oe).
+      { unfold do_read in E. rewrite Hb in E. simpl in E.
+        destruct (stack_read k (s_ls s) (s_r s)) as [[[d oe] ls'] r']. inversion E. eauto. }
+      destruct Hx' as (d & oe & ->).
+      specialize (Hs (h_raw (read_hs h (ORead d oe)) + (if h_closed (read_hs h (ORead d oe)) && negb (c_nil c) then 1 else 0)) [] []).
+      cbn [hist_ok] in Hs. rewrite Nat.eqb_refl in Hs. specialize (Hs eq_refl).
+      unfold no_body in Hs. rewrite Hn, Hc in Hs. cbn [andb] in Hs.
+      apply andb_true_iff in Hs as [Hs _]. apply andb_true_iff in Hs as [Hs _]. apply andb_true_iff in Hs as [Hp _].
+      apply has_prefix_spec in Hp as [q Hq].
+      unfold read_hs in HR1. rewrite Hc in HR1.
+      assert (Hc1 : h_closed (mkHs (skipn (length d) (h_rest h)) (h_wrapped h) false (h_raw h)) = false) by reflexivity.
+      destruct (IH _ _ HR1 Hc1 Hx) as (h' & H1 & H2 & H3).
+      destruct (run c ops s1) as [xs s2] eqn:E2. simpl in *. exists h'.
+      split; [exact H1|]. split; [exact H2|].
+      rewrite <- app_assoc, <- H3, Hq, skipn_app_exact. reflexivity.
+Qed.
+
+(* the number of zero-length reads left never grows *)
+Lemma run_empties c : forall ops s0 h0 term chk, R c term chk s0 h0 ->
+  empties_r (s_r (snd (run c ops s0))) <= empties_r (s_r s0).
+Proof.
+  induction ops as [|o ops IH]; intros s0 h0 term chk HR0; simpl; [lia|].
+      destruct (step c o s0) as [x s1] eqn:E.
+      destruct (step_ok _ _ _ _ _ _ _ _ HR0 E) as (h1 & HR1 & _).
+      specialize (IH _ _ _ _ HR1). destruct (run c ops s1) as [xs s2]. simpl in *.
+      assert (empties_r (s_r s1) <= empties_r (s_r s0)); [|lia].
+      clear IH HR1. destruct HR0 as (_ & _ & _ & _ & _ & _ & _ & _ & R9).
+      destruct o as [|k0|]; simpl in E.
+      - unfold has_body in E. destruct (0 <? c_cl c)%Z; [inversion E; subst; lia|].
+        destruct (c_hdr c); [inversion E; subst; lia|].
+        destruct (s_body s0); cbn [negb] in E; [|inversion E; subst; simpl; lia].
+        destruct (has_content (fresh_layer :: s_ls s0) (s_r s0)) as [[o ls'] r'] eqn:Eh. inversion E; subst; clear E. simpl.
+        destruct (h_closed h0).
+        + destruct R9 as [Hd _]. destruct (has_content_dead _ _ _ _ _ Hd Eh) as (_ & _ & -> & _). lia.
+        + destruct R9 as (Hi & _). unfold has_content in Eh. simpl in Eh.
+          destruct (fill_loop max_empty_reads (s_ls s0) (s_r s0)) as [[[c0 oe0] lo0] r0] eqn:Ef.
+          assert (F : forall i lo r x lo' r1, inv lo r -> fill_loop i lo r = (x, lo', r1) -> empties_r r1 <= empties_r r).
+          { clear. induction i as [|i IHi]; intros lo r x lo' r1 Hi H; simpl in H; [inversion H; subst; lia|].
+            destruct (stack_read bufsize lo r) as [[[c1 oe1] lo1] r2] eqn:Es.
+            destruct (stack_read_spec _ _ _ _ _ _ _ Hi Es) as (I1 & _).
+            destruct (stack_read_measure _ _ _ _ _ _ _ Hi Es) as [M1 _].
+            destruct oe1; [inversion H; subst; exact M1|].
+            destruct c1; [specialize (IHi _ _ _ _ _ I1 H); lia|inversion H; subst; exact M1]. }
+          pose proof (F _ _ _ _ _ _ Hi Ef). destruct c0; inversion Eh; subst; assumption.
+      - unfold do_read in E. destruct (s_body s0); cbn [negb] in E; [|inversion E; subst; lia].
+        destruct (stack_read k0 (s_ls s0) (s_r s0)) as [[[d oe] ls'] r'] eqn:Es. inversion E; subst; clear E. simpl.
+        destruct (h_closed h0).
+        + destruct R9 as [Hd _]. destruct (stack_read_dead _ _ _ _ _ _ _ Hd Es) as (_ & _ & _ & _ & ->). lia.
+        + destruct R9 as (Hi & _). destruct (stack_read_measure _ _ _ _ _ _ _ Hi Es) as [M1 _]. exact M1.
+      - unfold do_close in E. destruct (s_body s0); cbn [negb] in E; [|inversion E; subst; lia].
+        destruct (stack_close _ _) as [[e ls'] n]. inversion E; subst. simpl. lia.
+Qed.
+
+Theorem drain_all c steps ops k fuel :
+  c_nil c = false -> existsb is_close ops = false -> 0 < k ->
+  length (steps_bytes steps) + empties steps < fuel ->
+  let outs := fst (run c ops (init c steps)) in
+  let s := snd (run c ops (init c steps)) in
+  read_bytes (reads_before_close false c ops outs) ++ fst (drain fuel k s) = steps_bytes steps /\
+  snd (drain fuel k s) = Some (steps_term steps).
+Proof.
+  intros Hn Hx Hk Hf outs s.
+  destruct (run_open c _ _ Hn ops _ _ (init_R c steps) eq_refl Hx) as (h' & HR & Hc & Hrest).
+  fold s in HR. fold outs in Hrest.
+  unfold init_hs, init_term in *. rewrite Hn in *. cbn [h_rest h_wrapped] in Hrest.
+  assert (Hm : length (h_rest h') + empties_r (s_r s) < fuel).
+  { assert (length (h_rest h') <= length (steps_bytes steps)) by (rewrite Hrest, app_length; lia).
+    assert (empties_r (s_r s) <= empties steps); [|lia].
+    subst s.
+    pose proof (run_empties c) as G.
+    specialize (G ops _ _ _ _ (init_R c steps)). unfold init in G |- *. rewrite Hn in G |- *. simpl in G. exact G. }
+  rewrite (drain_ok c _ _ k Hk Hn fuel s h' HR Hc Hm). simpl. split; [now rewrite <- Hrest|reflexivity].
+Qed.
+
+(* C17_drain_exact on the example: probe, read 1, probe, then drain with 2-byte reads *)
+Example ex_drain :
+  let c := mkCfg (-1) false false None in
+  let s := snd (run c [OpHas; OpRead 1; OpHas] (init c ex_steps)) in
+  length (steps_bytes ex_steps) + empties ex_steps < 5 /\ drain 5 2 s = ([105; 33], Some (EScript 7)).
+Proof. vm_compute. split; [lia|reflexivity]. Qed.
